@@ -1,6 +1,7 @@
 """C17 — compilation is a pure function of its input files (structural clauses)."""
 from checks.common import Ctx
 from sa.report import Check
+from sa.rules import dep_rules as DRX
 from sa.rules import unordered as U
 
 
@@ -35,4 +36,5 @@ def main(tier):
             extra.notes.append(str(f))
         extra.findings = []
         chk.results.append(extra)
+    chk.run("R-TARJAN", DRX.tarjan, cx.repo, floor=3, order_only=True)
     return chk.finish()
